@@ -367,6 +367,18 @@ def run(ctx):
     from mstatic.rules import shared as _sh
     _sh.retry_not_defeated(ctx, r11)
 
+    # ---- R12 the polling threads and batches survive a failing item -------------------
+    r12 = ctx.rule('R12', 'a failing iteration does not end a polling '
+                   'thread; a failing call does not end its batch',
+                   'GD (handlers)')
+    from mstatic.rules import shared as _sh2
+    _sh2.service_loops_survive(ctx, r12, which=('scheduler',))
+    _sh2.batch_items_isolated(
+        ctx, r12, 'mistral.services.legacy_scheduler.LegacyScheduler.'
+        '_invoke_calls',
+        lambda c: isinstance(c.func, ast.Name) and
+        c.func.id == 'target_method', 'legacy delayed calls')
+
     # ---- R8 guarded-by -----------------------------------------------------------------------
     r8 = ctx.rule('R8', 'in-memory job structures are accessed only under '
                   'the scheduler condition lock', 'lock discipline')
